@@ -45,7 +45,10 @@ impl EventGen for SvgElement {
             _ => {
                 if let Some((start, end)) = self.event_range {
                     if start != end {
-                        return Container(self.clone()).generate_events(context);
+                        let res = Container(self.clone()).generate_events(context);
+                        // returning early: must still leave this nesting level
+                        context.dec_depth()?;
+                        return res;
                     }
                 }
                 OtherElement(self.clone()).generate_events(context)
